@@ -133,6 +133,52 @@ pub fn readonly_base(version: u16) -> Result<(Vec<u8>, BTreeMap<String, Vec<u8>>
     }
 }
 
+/// A read-only base whose FAT spans two sectors in V3 (more than 128 sectors): the directory and the
+/// small streams are laid down first, then a 70 000-byte stream, then one more stream behind it.
+pub fn readonly_base_large(version: u16) -> Result<(Vec<u8>, BTreeMap<String, Vec<u8>>), String> {
+    let mut live = ops::Live::create(version)?;
+    let mut truth = BTreeMap::new();
+    let r = guarded(|| -> io::Result<()> {
+        for (p, n) in [("/first", 600usize), ("/mid", 5000), ("/huge", 70_000), ("/late", 4700)] {
+            let data = ops::pattern(ops::seed_of(p, n as u64, 11), n);
+            let mut s = live.comp.create_stream(p)?;
+            s.write_all(&data)?;
+            s.flush()?;
+            truth.insert(p.to_string(), data);
+        }
+        Ok(())
+    });
+    match r {
+        Ok(Ok(())) => Ok((live.snapshot(), truth)),
+        Ok(Err(e)) => Err(format!("readonly base (large): {}", e)),
+        Err(p) => Err(format!("readonly base (large) panicked: {}", p)),
+    }
+}
+
+/// Workloads on the large base: faults while the tables are loaded, then reads across the file.
+pub fn readonly_workloads_large() -> Vec<(String, usize, Vec<WStep>)> {
+    let mut v = Vec::new();
+    for strict in [false, true] {
+        let s = vec![
+            WStep::Open { strict },
+            WStep::Walk,
+            WStep::OpenStream(0, "/huge".into()),
+            WStep::Read(0, 3000),
+            WStep::SeekStart(0, 66_000),
+            WStep::Read(0, 3000),
+            WStep::OpenStream(1, "/late".into()),
+            WStep::Read(1, 700),
+            WStep::Read(1, 4000),
+            WStep::OpenStream(2, "/mid".into()),
+            WStep::Read(2, 5000),
+            WStep::OpenStream(3, "/first".into()),
+            WStep::Read(3, 600),
+        ];
+        v.push((format!("two FAT sectors: open({}) + reads across the file", if strict { "strict" } else { "permissive" }), 1 << 20, s));
+    }
+    v
+}
+
 fn entries_summary(it: impl Iterator<Item = cfb::Entry>) -> String {
     let v: Vec<String> = it
         .take(ops::WALK_LIMIT)
@@ -899,6 +945,33 @@ pub fn mutating_workloads() -> Vec<(String, usize, Vec<WStep>)> {
             WStep::DropHandle(1),
         ],
     ));
+    // a regular chain is cut short but stays regular, another stream allocates, the shrink is repeated
+    v.push((
+        "shrink within regular, other stream allocates, shrink again".to_string(),
+        1 << 20,
+        vec![
+            WStep::Create,
+            WStep::CreateStream(0, "/a".into()),
+            WStep::Write(0, 9000),
+            WStep::Flush(0),
+            WStep::SetLen(0, 4608),
+            WStep::CreateStream(1, "/b".into()),
+            WStep::Write(1, 4200),
+            WStep::Flush(1),
+            WStep::SetLen(0, 4608),
+            WStep::SetLen(0, 4200),
+            WStep::Flush(0),
+            WStep::Flush(1),
+            WStep::CreateStream(2, "/c".into()),
+            WStep::Write(2, 300),
+            WStep::Flush(2),
+            WStep::Flush(1),
+            WStep::DropHandle(0),
+            WStep::DropHandle(1),
+            WStep::DropHandle(2),
+            WStep::CompFlush,
+        ],
+    ));
     // mini sectors are released at the tail of the mini stream (MiniFAT trimmed, root entry
     // rewritten) by set_len, by removal and by migration, and small streams are allocated afterwards
     v.push((
@@ -944,6 +1017,7 @@ pub fn generated_mutating_workloads(depth: usize) -> Vec<(String, usize, Vec<WSt
         ("empty", vec![WStep::Create, WStep::CreateStream(0, "/a".into())]),
         ("mini300", vec![WStep::Create, WStep::CreateStream(0, "/a".into()), WStep::Write(0, 300), WStep::Flush(0)]),
         ("regular5000", vec![WStep::Create, WStep::CreateStream(0, "/a".into()), WStep::Write(0, 5000), WStep::Flush(0)]),
+        ("regular9000", vec![WStep::Create, WStep::CreateStream(0, "/a".into()), WStep::Write(0, 9000), WStep::Flush(0)]),
     ];
     let alpha: Vec<WStep> = vec![
         WStep::Write(0, 100),
@@ -952,10 +1026,12 @@ pub fn generated_mutating_workloads(depth: usize) -> Vec<(String, usize, Vec<WSt
         WStep::SetLen(0, 0),
         WStep::SetLen(0, 200),
         WStep::SetLen(0, 5000),
+        WStep::SetLen(0, 4200),
         WStep::SeekStart(0, 0),
         WStep::SeekEnd(0, 0),
         WStep::CreateStream(1, "/b".into()),
         WStep::Write(1, 200),
+        WStep::Write(1, 4200),
         WStep::SetLen(1, 0),
         WStep::RemoveStream("/b".into()),
     ];
